@@ -144,6 +144,24 @@ def declare_fs(w):
             s2.heap.set(r, "st_size", SV(INT, size))
             yield s2, r
 
+    def os_stat(ex, args, kwargs, st, sink, node):
+        """os.stat FOLLOWS symbolic links: for a link it describes what the link points to (any file or directory), or fails when it dangles"""
+        p = s_(args[0])
+        k = fsget(st.heap, "kind", p)
+        for s2, islink in ex.fork(st, k == K_LINK):
+            if not islink:
+                yield from os_lstat(ex, args, kwargs, s2, sink, node)
+                continue
+            s3 = s2.fork()
+            ex.raise_(s3, sink, "OSError", origin="os.stat: dangling link")
+            r = ex.allocate(s2, "StatResult")
+            tk, pm, mt, sz = (z3.Int(core.fresh_name(n)) for n in ("target_kind", "target_perm", "target_mtime", "target_size"))
+            s2.assume(z3.Or(tk == K_FILE, tk == K_DIR), pm >= 0, pm < 4096, sz >= 0)
+            s2.heap.set(r, "st_mode", SV(INT, fmt_of(tk) * 4096 + pm))
+            s2.heap.set(r, "st_mtime", SV(INT, mt))
+            s2.heap.set(r, "st_size", SV(INT, sz))
+            yield s2, r
+
     def os_unlink(ex, args, kwargs, st, sink, node):
         p = s_(args[0])
         k = fsget(st.heap, "kind", p)
@@ -314,6 +332,7 @@ def declare_fs(w):
             yield s2, SV(SEQ(STR), names)
 
     w.externals["os.listdir"] = os_listdir
+    w.externals["os.stat"] = os_stat
     w.externals.update({"os.lstat": os_lstat, "os.unlink": os_unlink, "shutil.rmtree": shutil_rmtree, "os.makedirs": os_makedirs, "os.chmod": os_chmod, "os.utime": os_utime,
                         "os.symlink": os_symlink, "os.path.join": path_join, "builtins.open": py_open, "hashlib.md5": hashlib_md5,
                         "stat.S_ISREG": isfmt(8), "stat.S_ISDIR": isfmt(4), "stat.S_ISLNK": isfmt(10)})
